@@ -65,6 +65,21 @@ def run_one(m, idx):
         if m.get('commit'):
             diff = sh(f"git -C {REPO} show {m['commit']} --format=").stdout
             later = sh(f"git -C {REPO} diff {m['commit']} HEAD --stat").stdout
+            # later fix commits touching the same files are reverted first
+            files = set(sh(f"git -C {REPO} show {m['commit']} --format= --name-only").stdout.split())
+            later = sh(f"git -C {REPO} log --format=%h {m['commit']}..HEAD").stdout.split()
+            for h in later:
+                hf = set(sh(f"git -C {REPO} show {h} --format= --name-only").stdout.split())
+                subj = sh(f"git -C {REPO} show {h} --format=%s -s").stdout
+                if hf & files and subj.startswith('fix:'):
+                    d2 = sh(f"git -C {REPO} show {h} --format=").stdout
+                    chk = subprocess.run(['patch', '-R', '-p1', '--dry-run', '-s', '-d', scratch],
+                                         input=diff, text=True, capture_output=True)
+                    if chk.returncode == 0:
+                        break
+                    subprocess.run(['patch', '-R', '-p1', '--no-backup-if-mismatch', '-s',
+                                    '-d', scratch], input=d2, text=True, capture_output=True)
+                    res.setdefault('also_reverted', []).append(h)
             p = subprocess.run(['patch', '-R', '-p1', '--no-backup-if-mismatch', '-s',
                                 '-d', scratch], input=diff, text=True, capture_output=True)
         else:
